@@ -1,5 +1,6 @@
 import JominiModel.Driver.Util
 import JominiModel.Model.Derive
+import JominiModel.Spec.Derive
 /-
 ops of property C18:
 
@@ -35,9 +36,7 @@ def names : List String :=
 def nameId (k : String) : Option Nat := (names.findIdx? (· == k)).map (· + 0x2d00)
 def resolvable (k : String) : Bool := !(k.startsWith "u") || k == "u"
 
-def basic : Schema := [
-  { name := "a" }, { name := "b", isOption := true }, { name := "c", dflt := .yes }, { name := "d", dflt := .path },
-  { name := "e", kind := .duplicated }, { name := "f", kind := .takeLast }]
+def basic : Schema := basicS
 
 def aliased : Schema := [
   { name := "a", alias := some "x" },
@@ -47,13 +46,7 @@ def aliased : Schema := [
   { name := "both", kind := .duplicated },   -- `duplicated, take_last`: duplicated wins
   { name := "g", kind := .takeLast, dflt := .path }]
 
-def tok : Schema := [
-  { name := "a", token := some 0x2d00 },
-  { name := "e", token := some 0x2d04, kind := .duplicated },
-  { name := "f", token := some 0x2d05, kind := .takeLast, isOption := true },
-  { name := "b", token := some 0x2d01, alias := some "bee" },
-  { name := "c", token := some 0x2d02, dflt := .yes },
-  { name := "u1", token := some 0x2d0d, isOption := true }]
+def tok : Schema := tokS
 
 def inner : Schema := [
   { name := "u" }, { name := "v", kind := .duplicated }, { name := "w", kind := .takeLast, isOption := true }]
@@ -69,17 +62,15 @@ def withS : Schema := [
 `duplicated` fields (lib.rs:344 vs 380-403) -/
 def usesWith (sid : String) (f : FieldSpec) : Bool := sid == "with" && f.kind != .duplicated
 
-def isDigits (s : String) : Bool := !s.isEmpty && s.all Char.isDigit
-
 /-- text: keys are scalars; `deserialize_identifier` → `visit_str`; `deserialize_u16` →
 `deserialize_u64` → `visit_u64` when the key parses as u64 (not implemented by the field visitor) -/
 def deliverText (schema : Schema) (it : Item) : Key :=
-  if requestsU16 schema && isDigits it.key then .other else .str it.key
+  textKey schema it.key
 
 /-- binary: a string key → `visit_str`; a token id → `visit_u16(id)` under `deserialize_u16`,
 else the resolver's name, else (`FailedResolveStrategy::Ignore`) a name no field answers to -/
 def deliverBin (schema : Schema) (it : Item) : Key :=
-  if it.asI32 then .other else   -- an I32 key: `visit_i32`
+  if it.asI32 then binI32Key else   -- an I32 key: `visit_i32`
   match it.asId, nameId it.key with
   | true, some id =>
     if requestsU16 schema then .u16 id
